@@ -75,6 +75,10 @@ type Case struct {
 	// callers' early calls find no applicable method (error handled) and
 	// must find the new method once it is defined (seeded change C17-m2)
 	NoBase bool `json:"no_base,omitempty"`
+	// GateFirst (s2, with Nested): main takes the mutex and starts its routine
+	// from inside the locked region BEFORE any other routine exists (seeded
+	// change C17-o2: the lock elided while no routine is alive)
+	GateFirst bool `json:"gate_first,omitempty"`
 	// ViaFn (s1): every producer is started by one helper function that
 	// returns at once; the routine goes on using the function's parameters
 	// (seeded change C17-n2: call scopes recycled through a pool)
@@ -196,6 +200,7 @@ func (e *engine) Generate(seed uint64, idx int, tier string, avoid []harness.Fin
 		if r.Pct(40) {
 			c.Shorts = 1 + r.Intn(c.R)
 		}
+		c.GateFirst = c.Nested && r.Pct(50)
 	case x < 70:
 		c.Scen = "s3"
 		c.R = 2 + r.Intn(3)
@@ -374,6 +379,10 @@ func (c *Case) program(sfx string) program {
 		return program{setup: setup, main: b.String()}
 	case "s2":
 		fmt.Fprintf(&b, "(let ((m (make-mutex)) (n 0) (fin (make-channel 64)))\n")
+		nestedForm := fmt.Sprintf(" (with-mutex-lock m (run (progn (with-mutex-lock m (sim-emit \"enter\" %[1]d) (setq n (+ n 1)) (sim-emit \"exit\" %[1]d)) (channel-push fin %[1]d))) (sim-emit \"enter\" %[2]d) (setq n (+ n 1)) (sim-emit \"exit\" %[2]d))\n", c.R, c.R+1)
+		if c.Nested && c.GateFirst {
+			b.WriteString(nestedForm)
+		}
 		for t := 0; t < c.R; t++ {
 			body := fmt.Sprintf("(sim-emit \"enter\" %d) (setq n (+ n 1)) (sim-emit \"exit\" %d)", t, t)
 			var crit string
@@ -402,7 +411,9 @@ func (c *Case) program(sfx string) program {
 			// a routine started under the lock shares the starter's scope; it
 			// must still wait for the mutex
 			extra = 1
-			fmt.Fprintf(&b, " (with-mutex-lock m (run (progn (with-mutex-lock m (sim-emit \"enter\" %[1]d) (setq n (+ n 1)) (sim-emit \"exit\" %[1]d)) (channel-push fin %[1]d))) (sim-emit \"enter\" %[2]d) (setq n (+ n 1)) (sim-emit \"exit\" %[2]d))\n", c.R, c.R+1)
+			if !c.GateFirst {
+				b.WriteString(nestedForm)
+			}
 		}
 		fmt.Fprintf(&b, " (dotimes (i %d) (channel-pop fin))\n (with-mutex-lock m (sim-emit \"final\" n)))\n", c.R+extra)
 		return program{main: b.String()}
@@ -1366,6 +1377,7 @@ func (e *engine) Shrink(raw json.RawMessage) (out []json.RawMessage) {
 		func(n *Case) bool { n.Procs = 16; return c.Procs != 16 },
 		func(n *Case) bool { n.ConsFirst = false; return c.ConsFirst },
 		func(n *Case) bool { n.ViaFn = false; return c.ViaFn },
+		func(n *Case) bool { n.GateFirst = false; return c.GateFirst },
 		func(n *Case) bool { n.Shorts--; return c.Shorts > 0 },
 		func(n *Case) bool { n.Cap = 0; return c.Cap > 0 },
 	} {
